@@ -96,6 +96,8 @@ def gen_ParseConsts(repo):
     c["byteBufferSize"] = _eval(_define(ciffile, "BUFFER_SIZE", "ciffile.c"), env, "BUFFER_SIZE")
     c["magicLengthRaw"] = _eval(_define(ciffile, "MAGIC_LENGTH", "ciffile.c"), env, "ciffile.c MAGIC_LENGTH")
     c["magicExtraRaw"] = _eval(_define(ciffile, "MAGIC_EXTRA", "ciffile.c"), env, "MAGIC_EXTRA")
+    ciftypes = _strip_comments(_read(os.path.join(repo, "src", "internal", "ciftypes.h")))
+    c["charTableMax"] = _eval(_define(ciftypes, "CHAR_TABLE_MAX", "internal/ciftypes.h"), env, "CHAR_TABLE_MAX")
     c["ucharBom"] = _eval(_define(valueh, "UCHAR_BOM", "internal/value.h"), env, "UCHAR_BOM")
     c["ucharNl"] = _eval(_define(valueh, "UCHAR_NL", "internal/value.h"), env, "UCHAR_NL")
     c["ucharCr"] = _eval(_define(valueh, "UCHAR_CR", "internal/value.h"), env, "UCHAR_CR")
@@ -127,6 +129,11 @@ def gen_ParseConsts(repo):
                              % (reads[0][1].strip(), look))
     folds_second = bool(re.search(r"cr_pending\s*=", gfc))
 
+    if not re.search(r"\(\s*ch\s*>\s*CIF1_MAX_CHAR\s*\)\s*\?\s*\(\s*ch\s*!=\s*UCHAR_BOM\s*\)\s*:\s*\(\s*scanner->char_class\[ch\]\s*==\s*NO_CLASS\s*\)", gfc):
+        raise TranslateError("get_first_char: the acceptance test `(ch > CIF1_MAX_CHAR) ? (ch != UCHAR_BOM) : (class == NO_CLASS)` was not found")
+    raw_parser = _read(os.path.join(repo, "src", "parser.c"))
+    if not re.search(r"\(\(c\s*&\s*0xFFFEu\)\s*==\s*0xFFFEu\)\s*\|\|\s*\(c\s*==\s*UCHAR_BOM\)\s*\|\|\s*\(\(c\s*>=\s*0xFDD0u\)\s*&&\s*\(c\s*<=\s*0xFDEFu\)\)", raw_parser):
+        raise TranslateError("SCAN_UCHAR: the test for disallowed characters above CHAR_TABLE_MAX was not found in its known form")
     gmc = function_body(parser, "get_more_chars", "parser.c")
     if not re.search(r"cr_pending\s*=\s*\(\s*fill\s*\[\s*nread\s*-\s*1\s*\]\s*==\s*UCHAR_CR\s*\)", gmc):
         raise TranslateError("get_more_chars: the cr_pending update `fill[nread - 1] == UCHAR_CR` was not found")
